@@ -159,6 +159,37 @@ theorem custom_simplify_preserves (simp : BExp → BExp) (K4 : Kernel4) (hK : K4
   unfold simplifySection
   rw [List.map_map]; rfl
 
+/-- **xonly_section_ok** (the fragment the repaired optimizer accepts in practice): for every
+section, every sound kernel and every `n`: if the section's decompiled expressions say "the qubits
+in `F` are negated, every other qubit keeps its value" (what a meaning-preserving simplifier turns
+into `q = ~q` / drops) and the re-synthesised gate list is one X gate per qubit of `F`, then the
+splice is `SectionOK` – by the soundness of the symbolic execution (C11 `symexec_sound`).  Together
+with `splice_equiv` this is the property for every run whose accepted sections are of this kind;
+that the compiler model emits exactly these X gates is shown by the correspondence, not proved. -/
+theorem xonly_section_ok (K : Kernel) (hK : K.Sound) (q : Quirks) (n : Nat) (sec : List AGate) (d : Dict)
+    (hd : expsOfSection q K n sec = .ok d) (new : List AGate) (F : List Nat) (hF : F.Nodup)
+    (hnew : new.map (fun g => (g.cls, g.wires)) = F.map (fun i => (GClass.X, [i])))
+    (hflip : ∀ i ∈ F, ∀ ρ, (expOf d i).eval ρ = !ρ (qname i))
+    (hid : ∀ i, i < n → i ∉ F → ∀ ρ, (expOf d i).eval ρ = ρ (qname i)) :
+    SectionOK n sec new :=
+  xonly_sectionOK K hK q n sec d hd new F hF hnew hflip hid
+
+/-- the hypotheses of `xonly_section_ok` are satisfiable: `x(0) x(1) x(0)` on two qubits, `F = [1]` -/
+example : SectionOK 2 [⟨.X, [0], .none, 0⟩, ⟨.X, [1], .none, 0⟩, ⟨.X, [0], .none, 0⟩] [⟨.X, [1], .none, 7⟩] := by
+  refine xonly_section_ok rawKernel rawKernel_sound Quirks.none 2 _
+    [("q0", .not (.not (.sym "q0"))), ("q1", .not (.sym "q1"))] (by rfl) _ [1] (by decide) (by decide) ?_ ?_
+  · intro i hi ρ
+    simp only [List.mem_singleton] at hi
+    subst hi
+    rfl
+  · intro i hi hne ρ
+    have : i = 0 := by
+      simp only [List.mem_singleton] at hne
+      omega
+    subst this
+    show (!(!ρ "q0")) = ρ "q0"
+    simp
+
 /-- the kernel hypothesis is satisfiable -/
 theorem raw_kernel4_sound : rawKernel4.Sound := rawKernel4_sound
 
